@@ -150,6 +150,41 @@ impl FrequencyCounter {
     }
 }
 
+#[cfg(cached_verif)]
+pub(crate) mod verif_access {
+    use super::{FrequencyCounter, Row};
+
+    pub(crate) fn increment_at(bytes: &mut Vec<u8>, position: u64) {
+        let mut row = Row(std::mem::take(bytes));
+        row.increment_at(position);
+        *bytes = row.0;
+    }
+
+    pub(crate) fn get_at(bytes: &[u8], position: u64) -> u8 {
+        Row(bytes.to_vec()).get_at(position)
+    }
+
+    pub(crate) fn half_counters(bytes: &mut Vec<u8>) {
+        let mut row = Row(std::mem::take(bytes));
+        row.half_counters();
+        *bytes = row.0;
+    }
+
+    pub(crate) fn next_power_2(counters: u64) -> u64 { FrequencyCounter::next_power_2(counters) }
+
+    impl FrequencyCounter {
+        pub(crate) fn verif_total_counters(&self) -> u64 { self.total_counters }
+
+        pub(crate) fn verif_positions(&self, key_hash: u64) -> [u64; super::ROWS] {
+            let mut positions = [0; super::ROWS];
+            (0..super::ROWS).for_each(|index| positions[index] = (key_hash ^ self.seeds[index]) % self.total_counters);
+            positions
+        }
+
+        pub(crate) fn verif_rows(&self) -> Vec<Vec<u8>> { self.matrix.iter().map(|row| row.0.clone()).collect() }
+    }
+}
+
 #[cfg(test)]
 mod tests {
     use crate::cache::lfu::frequency_counter::{FrequencyCounter, MAX_VALUE_LOWER_FOUR_BITS, Row};
